@@ -6,7 +6,14 @@ order of Listener.accept / Client) and proved equal to Model/Auth.v by reflexivi
 Tie (b): the real Listener.accept / Client (two threads over a socketpair or a real
 AF_UNIX socket, or against a scripted hostile peer) and the Gallina model run on the
 same cases; the model's MAC is the digest table computed by the real hmac.
-Independently of the model, three monitors judge every implementation trace."""
+Independently of the model, monitors judge every implementation trace.
+Channel faults: the same scenarios with send_bytes / recv_bytes calls that fail at scripted
+positions (injected BrokenPipeError / ConnectionResetError / OSError / EOFError, and real
+EPIPE produced by a peer that shuts down the read side of its socket); the model (run1f /
+run2f, proved never to accept a wrong digest whatever fails) gets the observed fate of every
+send call as its oracle, and the monitor "accepted => the digest received for the own
+challenge was right" is judged from the recorded calls alone (it needs no model, so it still
+runs when the translator refuses a changed function)."""
 import hashlib
 import hmac
 import json
@@ -26,9 +33,15 @@ MANIFEST = dict(
          'detects first); under an explicit no-collision hypothesis this is IFF same key; an honest side returns only '
          'if the peer sent exactly mac(key, fresh challenge) (replayed/truncated/foreign digests refused); messages '
          'over 256 bytes, a missing CHALLENGE prefix, any verdict but WELCOME are rejected; a non-bytes key raises '
-         'TypeError and no message is built from it. Correspondence of real Listener.accept/Client/deliver_challenge/'
+         'TypeError and no message is built from it; CHANNEL FAULTS: for every oracle deciding per send_bytes call '
+         'of either party whether it is delivered or raises, and per recv_bytes call whether it meets a message or '
+         'raises, a party returns only if it received exactly mac(own key, own challenge) and none of its sends failed '
+         '(a failed verdict send ends in that error, never in acceptance); listener x client with two send oracles: '
+         'complete outcome table, success is joint and needs both digest equations and no failed send. Correspondence of real Listener.accept/Client/deliver_challenge/'
          'answer_challenge with the model on key pairs (equal, one bit apart, prefixes, NUL-padded, long) and scripted '
-         'hostile peers; property monitors on every implementation trace.',
+         'hostile peers, and the same under injected send/recv failures and real EPIPE (peer shut down its read side); '
+         'property monitors on every implementation trace, incl. accepted => right digest received, from the recorded '
+         'calls alone.',
     note='All theorems Closed under the global context. Trusted: Coq kernel; translate/kernels/auth.py (AST -> process '
          'terms); the harness recorder/starvation detector; message framing (C13) abstracted to whole messages; '
          'HMAC strength and os.urandom freshness are NOT proved (the generator only checks the challenge is '
@@ -45,7 +58,10 @@ Import ListNotations. Open Scope Z_scope.
 Definition check_case := Auth.check_case.'''
 
 CHALLENGE, WELCOME, FAILURE = b'#CHALLENGE#', b'#WELCOME#', b'#FAILURE#'
-EXN = ('AuthenticationError', 'AssertionError', 'OSError', 'TypeError')
+EXN = ('AuthenticationError', 'AssertionError', 'OSError', 'TypeError',
+       'BrokenPipeError', 'ConnectionResetError', 'EOFError')
+SEND_FAULTS = ('BrokenPipeError', 'ConnectionResetError', 'OSError')
+RECV_FAULTS = ('ConnectionResetError', 'OSError', 'EOFError')
 BLOCK = {'md5': 64, 'sha1': 64, 'sha224': 64, 'sha256': 64, 'sha384': 128, 'sha512': 128}
 
 
@@ -214,6 +230,118 @@ def gen_cases(rng, n, dm, tier):
     return cases
 
 
+# ------------------------------------------------------------------ channel faults
+def is_fault_case(c):
+    return bool(c.get('sfaults')) or c.get('shut_rd') is not None or \
+        any(isinstance(m, dict) for m in c.get('script', []))
+
+
+def fault_peer_case(rng, side, dm, dname, vname='welcome', chname='ok'):
+    """a scripted peer with the named digest variant (and a good challenge / verdict unless told otherwise)"""
+    k = rbytes(rng, rng.choice([1, 5, 16, 32, 70]))
+    if k.endswith(b'\0'):
+        k = k[:-1] + b'\x01'
+    c = challenge(rng)
+    d = dict(reversed(digest_variants(rng, k, c, dm)))[dname]
+    ch = dict(reversed(challenge_variants(rng)))[chname]
+    v = dict(reversed(verdict_variants(rng)))[vname]
+    script = [d, ch, v] if side == 'L' else [ch, v, d]
+    case = dict(kind='peer' + side, transport='pipe', script=[m.hex() for m in script])
+    if side == 'L':
+        case.update(kl=kb(k), cl=c.hex())
+    else:
+        case.update(kc=kb(k), cc=c.hex())
+    return case
+
+
+def gen_fault_cases(rng, n_random, dm):
+    """the handshake over a channel whose calls fail: enumerated (which call, which error,
+    what the peer answered) and random"""
+    cases = []
+    digests = ('bit-flipped', 'correct', 'other-key', 'empty')
+    # (1) real: the peer stops reading (shutdown(SHUT_RD)) just before the j-th send of the
+    #     honest side and goes on writing -- the kernel fails the send (EPIPE)
+    for side in 'CL':
+        for j in (2, 1, 0):
+            for dn in digests[:3]:
+                c = fault_peer_case(rng, side, dm, dn)
+                c.update(shut_rd=j, cls='fault/shut_rd/%s/%s/%d' % (side, dn, j))
+                cases.append(c)
+    # (2) injected: the j-th send_bytes call of the honest side raises
+    for side in 'CL':
+        for dn in digests:
+            for j in range(3):
+                for err in SEND_FAULTS:
+                    c = fault_peer_case(rng, side, dm, dn)
+                    c.update(sfaults={side: [None] * j + [err]}, cls='fault/send/%s/%s/%d/%s' % (side, dn, j, err))
+                    cases.append(c)
+                c = fault_peer_case(rng, side, dm, dn)          # ... and every later one as well
+                c.update(sfaults={side: [None] * j + ['BrokenPipeError'] * 4},
+                         cls='fault/send-all/%s/%s/%d' % (side, dn, j))
+                cases.append(c)
+    # (3) injected: the j-th recv_bytes call raises; the peer's messages go on behind it
+    for side in 'CL':
+        for j in range(3):
+            for err in RECV_FAULTS:
+                for dn in ('correct', 'bit-flipped'):
+                    c = fault_peer_case(rng, side, dm, dn)
+                    c['script'].insert(j, dict(fail=err))
+                    c['cls'] = 'fault/recv/%s/%s/%d/%s' % (side, dn, j, err)
+                    cases.append(c)
+    # (4) listener against client, one of them meets a failing send
+    for same in (True, False):
+        for side in 'LC':
+            for j in range(3):
+                for err in SEND_FAULTS:
+                    k = rbytes(rng, rng.choice([1, 8, 20, 64])).replace(b'\0', b'\x01')
+                    k2 = k if same else flip_bit(rng, k).replace(b'\0', b'\x02')
+                    cases.append(dict(kind='honest', transport='unix' if rng.random() < 0.15 else 'pipe',
+                                      kl=kb(k), kc=kb(k2), cl=challenge(rng).hex(), cc=challenge(rng).hex(),
+                                      sfaults={side: [None] * j + [err]},
+                                      cls='fault/honest/%s/%s/%d/%s' % ('equal' if same else 'one-bit', side, j, err)))
+    # (5) random combinations
+    for i in range(n_random):
+        r = rng.random()
+        if r < 0.25:
+            cls, kl, kc = key_pair(rng, dm, 'quick')
+            while not (is_bytes_key(kl) and is_bytes_key(kc)) or cls.startswith('huge'):
+                cls, kl, kc = key_pair(rng, dm, 'quick')
+            c = dict(kind='honest', transport='pipe', kl=kl, kc=kc, cl=challenge(rng).hex(), cc=challenge(rng).hex(),
+                     sfaults={sd: [rng.choice(SEND_FAULTS) if rng.random() < 0.2 else None for _ in range(3)]
+                              for sd in 'LC'}, cls='fault/random/honest/' + cls)
+        else:
+            side = rng.choice('LC')
+            c = peer_case(rng, side, dm)
+            q = rng.random()
+            if q < 0.3:
+                c['shut_rd'] = rng.randrange(4)
+            else:
+                c['sfaults'] = {side: [rng.choice(SEND_FAULTS) if rng.random() < 0.3 else None for _ in range(4)]}
+            if rng.random() < 0.25:
+                c['script'].insert(rng.randint(0, len(c['script'])), dict(fail=rng.choice(RECV_FAULTS)))
+            c['cls'] = 'fault/random/' + c['cls']
+        if is_fault_case(c):
+            cases.append(c)
+    return cases
+
+
+def accepted_right_digest(key, tr, dm):
+    """judged from the recorded calls of one side alone: it was handed a connection => it had sent a
+    challenge, and the first message it received after that was hmac(own key, that challenge).
+    Returns None if so, else what is wrong."""
+    at = next((i for i, e in enumerate(tr) if e[0] == 's' and bytes.fromhex(e[1]).startswith(CHALLENGE)), None)
+    if at is None:
+        return 'it never sent a challenge'
+    body = bytes.fromhex(tr[at][1])[len(CHALLENGE):]
+    got = next((e for e in tr[at + 1:] if e[0] == 'r' and e[1] is not None), None)
+    if got is None:
+        return 'it received no answer to its challenge'
+    if bytes.fromhex(got[1]) != mac(key, body, dm):
+        return 'the answer it received to its challenge, %s, is not hmac(key, challenge) = %s' % (
+            got[1][:64], mac(key, body, dm).hex())
+    return None
+
+
 # ------------------------------------------------------------------ rendering
 def cbytes(h):
     b = bytes.fromhex(h)
@@ -253,6 +381,19 @@ def cobs(o):
     return '(Some (%s, %s))' % (oc, clist(o['sent'], cbytes))
 
 
+def cexn(name):
+    return 'None' if name is None else '(Some %s)' % (name if name in EXN else 'OSError')
+
+
+def cfaults(ob):
+    """the channel's decisions as observed by the recorder: the fate of every send_bytes call"""
+    return clist((ob or {}).get('sres') or [], cexn)
+
+
+def crev(m):
+    return '(RFail %s)' % (m['fail'] if m['fail'] in EXN else 'OSError') if isinstance(m, dict) else '(Msg %s)' % cbytes(m)
+
+
 def to_coq(c, o):
     # every distinct key is bound once (keys may be tens of kilobytes)
     names, lets = {}, ''
@@ -260,7 +401,14 @@ def to_coq(c, o):
         if e[0] not in names:
             names[e[0]] = 'k%d_' % len(names)
             lets += 'let %s := %s in ' % (names[e[0]], cbytes(e[0]))
-    if c['kind'] == 'honest':
+    if is_fault_case(c) and c['kind'] == 'honest':
+        sc = '(HonestF %s %s %s %s %s %s)' % (ckey(c['kl'], names), ckey(c['kc'], names), cbytes(c['cl']),
+                                              cbytes(c['cc']), cfaults(o['L']), cfaults(o['C']))
+    elif is_fault_case(c) and c['kind'] == 'peerL':
+        sc = '(VsPeerLF %s %s %s %s)' % (ckey(c['kl'], names), cbytes(c['cl']), clist(c['script'], crev), cfaults(o['L']))
+    elif is_fault_case(c):
+        sc = '(VsPeerCF %s %s %s %s)' % (ckey(c['kc'], names), cbytes(c['cc']), clist(c['script'], crev), cfaults(o['C']))
+    elif c['kind'] == 'honest':
         sc = '(Honest %s %s %s %s)' % (ckey(c['kl'], names), ckey(c['kc'], names), cbytes(c['cl']), cbytes(c['cc']))
     elif c['kind'] == 'peerL':
         sc = '(VsPeerL %s %s %s)' % (ckey(c['kl'], names), cbytes(c['cl']), clist(c['script'], cbytes))
@@ -293,7 +441,16 @@ def monitors(c, o, dm):
                 alarm('non-bytes-key-not-rejected',
                       '%s side with a %s key ended %s after sending %d message(s) instead of TypeError before any message'
                       % (side, key['t'], ob['out'], len(ob['sent'])))
-    if c['kind'] == 'honest' and is_bytes_key(c['kl']) and is_bytes_key(c['kc']) \
+        # accepted => the digest received for the own challenge was right (recorded calls only)
+        if is_bytes_key(key) and key['hex'] and ob['out'] == 'returned' and 'trace' in ob:
+            why = accepted_right_digest(bytes.fromhex(key['hex']), ob['trace'], dm)
+            if why:
+                failed = [e for e in ob['trace'] if e[0] == 's' and e[2]]
+                alarm('wrong-digest-accepted',
+                      'honest %s was handed a connection although %s%s' % (
+                          side, why, '; its send of %s had failed with %s' % (
+                              bytes.fromhex(failed[0][1])[:12], failed[0][2]) if failed else ''))
+    if c['kind'] == 'honest' and not is_fault_case(c) and is_bytes_key(c['kl']) and is_bytes_key(c['kc']) \
             and c['kl']['hex'] and c['kc']['hex']:
         kl, kc = bytes.fromhex(c['kl']['hex']), bytes.fromhex(c['kc']['hex'])
         outs = (o['L']['out'], o['C']['out'])
@@ -309,7 +466,7 @@ def monitors(c, o, dm):
             else:
                 alarm('mismatched-keys-not-both-refused',
                       'listener and client hold different keys but ended %s/%s' % outs)
-    if c['kind'] in ('peerL', 'peerC'):
+    if c['kind'] in ('peerL', 'peerC') and not any(isinstance(m, dict) for m in c['script']):
         side = c['kind'][-1]
         key = c['kl'] if side == 'L' else c['kc']
         ob = o[side]
@@ -321,6 +478,12 @@ def monitors(c, o, dm):
             if len(script) <= pos or script[pos] != mac(k, ch, dm):
                 alarm('wrong-digest-accepted',
                       'honest %s returned a connection although the peer never sent hmac(key, challenge)' % side)
+    # a real shutdown must have produced a real failure (else the fault cases test nothing)
+    if c.get('shut_rd') is not None:
+        ob = o[c['kind'][-1]]
+        j = c['shut_rd']
+        if len(ob.get('sres', [])) > j and ob['sres'][j] is None:
+            al.append(dict(harness='send call %d succeeded although the peer had shut down its read side' % j))
     return al
 
 
@@ -338,7 +501,8 @@ def brief(c):
                 s['hex'] = s['hex'][:40] + '...(%d bytes)' % (len(s['hex']) // 2)
             d[k] = s
     if 'script' in c:
-        d['script'] = [m if len(m) < 80 else m[:40] + '...(%d bytes)' % (len(m) // 2) for m in c['script']]
+        d['script'] = [m if isinstance(m, dict) or len(m) < 80 else m[:40] + '...(%d bytes)' % (len(m) // 2)
+                       for m in c['script']]
     return json.dumps(d, sort_keys=True)
 
 
@@ -346,7 +510,10 @@ def brief_obs(o):
     def b(x):
         if x is None:
             return None
-        return dict(out=x['out'], sent=[m if len(m) < 80 else m[:40] + '...' for m in x['sent']])
+        d = dict(out=x['out'], sent=[m if len(m) < 80 else m[:40] + '...' for m in x['sent']])
+        if any(x.get('sres') or []):
+            d['send_calls'] = x['sres']
+        return d
     return json.dumps(dict(L=b(o.get('L')), C=b(o.get('C')), nL=o.get('nL'), nC=o.get('nC')))
 
 
@@ -371,15 +538,21 @@ def run_impl(cases, dm, aux=False):
     return out['results'], out['aux']
 
 
-def correspond(res, n, dm):
+def correspond(res, n, dm, n_fault):
     rng = random.Random(res.seed * 7919 + 18)
     corpus = json.load(open(core.VERIF + '/corpus/C18.json'))
     cases = corpus + gen_cases(rng, n, dm, res.tier)
+    # channel faults (own generator state: the cases above stay what they were)
+    cases += gen_fault_cases(random.Random(res.seed * 7919 + 1818), n_fault, dm)
     outs, aux = run_impl(cases, dm, aux=True)
     # monitors first: they do not depend on the model
     seen = set()
     for c, o in zip(cases, outs):
         for a in monitors(c, o, dm):
+            if 'harness' in a:
+                res.broken.append(dict(kind='harness', name='fault injection did not take effect',
+                                       detail='%s | case %s | impl %s' % (a['harness'], brief(c), brief_obs(o))))
+                continue
             if a['signature'] not in seen or len(res.alarms) < 40:
                 res.alarms.append(a)
             seen.add(a['signature'])
@@ -416,7 +589,21 @@ def correspond(res, n, dm):
     nontrivial = {json.dumps({k: v for k, v in c.items() if k != 'cls'}, sort_keys=True)
                   for c, o in zip(cases, outs)
                   if any(o.get(s) and o[s]['sent'] for s in 'LC')}
-    hist_kind = Counter(c['kind'] + '/' + c.get('transport', 'pipe') for c in cases)
+    hist_kind = Counter(c['kind'] + '/' + c.get('transport', 'pipe') + ('/faults' if is_fault_case(c) else '')
+                        for c in cases)
+    fcases = [(c, o) for c, o in zip(cases, outs) if is_fault_case(c)]
+    hist_fault = Counter()
+    for c, o in fcases:
+        for sd in 'LC':
+            for i, e in enumerate((o.get(sd) or {}).get('sres') or []):
+                if e:
+                    hist_fault['%s send#%d %s%s' % (sd, i, e, ' (real, peer shut down its read side)'
+                                                    if c.get('shut_rd') is not None else '')] += 1
+            for e in (o.get(sd) or {}).get('trace') or []:
+                if e[0] == 'r' and e[2]:
+                    hist_fault['%s recv %s' % (sd, e[2])] += 1
+    hist_fault_out = Counter('%s:%s/%s' % (c['kind'], (o['L'] or {}).get('out'), (o['C'] or {}).get('out'))
+                             for c, o in fcases)
     hist_keys = Counter(c.get('cls', 'corpus') for c in cases if c['kind'] == 'honest')
     hist_out = Counter('%s:%s/%s' % (c['kind'], (o['L'] or {}).get('out'), (o['C'] or {}).get('out'))
                        for c, o in zip(cases, outs))
@@ -432,20 +619,25 @@ def correspond(res, n, dm):
                 samples=[dict(case=json.loads(brief(cases[first])), impl=json.loads(brief_obs(outs[first]))),
                          dict(case=json.loads(brief(cases[-1])), impl=json.loads(brief_obs(outs[-1])))],
                 rule='honest listener x client over key-pair classes and challenges; scripted hostile peers '
-                     '(random and enumerated digest/challenge/verdict variants); non-trivial = at least one '
+                     '(random and enumerated digest/challenge/verdict variants); the same over a faulty channel (which '
+                     'send/recv call fails x which error x what the peer answered; injected and real EPIPE); non-trivial = at least one '
                      'handshake message was sent; distinct by canonical JSON',
                 case_kinds=dict(hist_kind), key_pair_classes=dict(hist_keys), outcome_histogram=dict(hist_out),
                 peer_first_message_classes=dict(hist_first), key_length_histogram=dict(keylens),
-                digest_algorithm_named_by_the_code=dm, aux_observations=aux)
+                digest_algorithm_named_by_the_code=dm, aux_observations=aux,
+                fault_cases=len(fcases), failed_calls_histogram=dict(hist_fault),
+                fault_case_outcomes=dict(hist_fault_out))
 
 
 def run(res):
     res.proof_step('Props/C18.v', extra_targets=['Model/Auth.vo'], kernels_needed=['K_auth'])
     dm = digestmod_from_gen()
     n = 200 if res.tier == 'quick' else 4000
+    n_fault = 120 if res.tier == 'quick' else 3000
     if res.broken:
         n = max(n, 1500)        # failing-input search
-    correspond(res, n, dm)
+        n_fault = max(n_fault, 600)
+    correspond(res, n, dm, n_fault)
     res.assumptions += [
         'the MAC is an uninterpreted function in the theorems; HMAC strength (unforgeability, no collisions between '
         'unrelated keys) is assumed, not proved',
@@ -453,6 +645,11 @@ def run(res):
         'the driver checks two real challenges differ)',
         'channel = FIFO of whole messages (framing and partial reads are C13); recv_bytes(256) rejecting longer '
         'messages with OSError is exercised on the real Connection but not proved here',
+        'channel faults: a send_bytes / recv_bytes call either completes or raises and then transfers nothing (a partial '
+        'write followed by an error is C13); which call fails with which error is an oracle (universally quantified in '
+        'the theorems, observed by the recorder in the runs); that an exception raised by a call leaves the handshake '
+        'function rests on the generator refusing try/except/with inside deliver_challenge/answer_challenge and around '
+        'the calls in accept()/Client()',
         'assert statements are enabled (python -O would drop the CHALLENGE prefix check and the isinstance asserts)',
         'relay/reflection by a man in the middle (forwarding an honest party\'s digest) is outside the property: the '
         'theorems only say the accepted digest equals mac(key, challenge)',
@@ -473,7 +670,7 @@ def replay(path):
     print('case:', brief(c))
     print('recorded implementation:', json.dumps(d['replay'].get('impl'))[:2000])
     print('implementation now:     ', json.dumps(strip(o))[:2000])
-    al = monitors(c, o, dm)
+    al = [a for a in monitors(c, o, dm) if 'harness' not in a]
     for a in al:
         print('monitor:', a['signature'], '-', a['what'][:300])
     codes, _ = core.coq_eval('C18r', HEADER, [[to_coq(c, o)]])
